@@ -312,27 +312,34 @@ func ParseStreamCallback variant csvdb
 // ---------------------------------------------------------------------------------------------
 func ParseStreamCallback variant stats1
   bind callback = stats.Stats$1
-  props C08 C09 C10
+  props C08 C09 C10 C07
   modifies captured(callback, lastLogDate), captured(callback, err), captured(callback, firstLogDate), captured(callback, countLog)
-  modifies ghost(cbLen, cbErr, cbNode, cbStop, cbRet, cbLineNo, cbLine, cbHeader, cbElems, cbNElems, scRd, scPos, privLo, evOf)
+  modifies ghost(cbLen, cbErr, cbNode, cbStop, cbRet, cbLineNo, cbLine, cbHeader, cbElems, cbNElems, scRd, scPos, privLo, evOf, evLine)
   ensures @fails-on-malformed [C09] result == nil ==> (forall i int :: {RdLine(rd, i)} 0 <= i && i < RdN(rd) ==> !Malformed(rd, i, cc))
   ensures @fails-on-unreadable [C10] result == nil ==> !RdFailed(rd)
+  // every record (heading) is counted once (C07: stats counts = number of headings)
+  ensures @counts-headings [C07] result == nil ==> captured(callback, countLog) - old(captured(callback, countLog)) == HeadCount(rd, RdN(rd), cc)
   ensures @error-or-all [C10] result == nil ==> (forall j int :: {cbStop[j]} old(cbLen) <= j && j < cbLen ==> !cbStop[j] && cbErr[j] == nil)
   loop 1 {
     invariant @clean forall i int :: {RdLine(rd, i)} 0 <= i && i < lineNumber ==> !Malformed(rd, i, cc)
     invariant @noerr forall j int :: {cbErr[j]} old(cbLen) <= j && j < cbLen ==> cbErr[j] == nil
+    invariant @counted captured(callback, countLog) - old(captured(callback, countLog)) == cbLen - old(cbLen)
+    invariant @rec-count cbLen - old(cbLen) == HeadCount(rd, lineNumber, cc) - (if node != nil then 1 else 0)
     invariant @own node != nil ==> arr(node.Elements) >= privLo && (node.Metadata != nil ==> ref(node.Metadata) >= privLo && arr(*node.Metadata) >= privLo)
   }
+  ghost after call 1 NewScanner { unfold HeadCount(rd, 0, cc) }
+  ghost before call 1 Trim { unfold HeadCount(rd, lineNumber, cc) }
 
 func ParseFileCallback variant stats1
   bind callback = stats.Stats$1
   calluse ParseStreamCallback#1 stats1
-  props C08 C09 C10
+  props C08 C09 C10 C07
   modifies captured(callback, lastLogDate), captured(callback, err), captured(callback, firstLogDate), captured(callback, countLog)
-  modifies ghost(cbLen, cbErr, cbNode, cbStop, cbRet, cbLineNo, cbLine, cbHeader, cbElems, cbNElems, scRd, scPos, privLo, evOf, lastOpen)
+  modifies ghost(cbLen, cbErr, cbNode, cbStop, cbRet, cbLineNo, cbLine, cbHeader, cbElems, cbNElems, scRd, scPos, privLo, evOf, lastOpen, evLine)
   let cc := c.CommentChar
   ensures @fails-on-unreadable [C10] result == nil ==> FileNameOf(lastOpen) == fileName && !RdFailed(lastOpen)
   ensures @fails-on-malformed [C09] result == nil ==> (forall i int :: {RdLine(lastOpen, i)} 0 <= i && i < RdN(lastOpen) ==> !Malformed(lastOpen, i, cc))
+  ensures @counts-headings [C07] result == nil ==> captured(callback, countLog) - old(captured(callback, countLog)) == HeadCount(lastOpen, RdN(lastOpen), cc)
   ensures @error-or-all [C10] result == nil ==> (forall j int :: {cbStop[j]} old(cbLen) <= j && j < cbLen ==> !cbStop[j] && cbErr[j] == nil)
 
 // ---------------------------------------------------------------------------------------------
@@ -341,27 +348,34 @@ func ParseFileCallback variant stats1
 // ---------------------------------------------------------------------------------------------
 func ParseStreamCallback variant stats2
   bind callback = stats.Stats$2
-  props C08 C09 C10
+  props C08 C09 C10 C07
   modifies captured(callback, countDb)
-  modifies ghost(cbLen, cbErr, cbNode, cbStop, cbRet, cbLineNo, cbLine, cbHeader, cbElems, cbNElems, scRd, scPos, privLo, evOf)
+  modifies ghost(cbLen, cbErr, cbNode, cbStop, cbRet, cbLineNo, cbLine, cbHeader, cbElems, cbNElems, scRd, scPos, privLo, evOf, evLine)
   ensures @fails-on-malformed [C09] result == nil ==> (forall i int :: {RdLine(rd, i)} 0 <= i && i < RdN(rd) ==> !Malformed(rd, i, cc))
   ensures @fails-on-unreadable [C10] result == nil ==> !RdFailed(rd)
+  // every record (heading) is counted once (C07: stats counts = number of headings)
+  ensures @counts-headings [C07] result == nil ==> captured(callback, countDb) - old(captured(callback, countDb)) == HeadCount(rd, RdN(rd), cc)
   ensures @error-or-all [C10] result == nil ==> (forall j int :: {cbStop[j]} old(cbLen) <= j && j < cbLen ==> !cbStop[j] && cbErr[j] == nil)
   loop 1 {
     invariant @clean forall i int :: {RdLine(rd, i)} 0 <= i && i < lineNumber ==> !Malformed(rd, i, cc)
     invariant @noerr forall j int :: {cbErr[j]} old(cbLen) <= j && j < cbLen ==> cbErr[j] == nil
+    invariant @counted captured(callback, countDb) - old(captured(callback, countDb)) == cbLen - old(cbLen)
+    invariant @rec-count cbLen - old(cbLen) == HeadCount(rd, lineNumber, cc) - (if node != nil then 1 else 0)
     invariant @own node != nil ==> arr(node.Elements) >= privLo && (node.Metadata != nil ==> ref(node.Metadata) >= privLo && arr(*node.Metadata) >= privLo)
   }
+  ghost after call 1 NewScanner { unfold HeadCount(rd, 0, cc) }
+  ghost before call 1 Trim { unfold HeadCount(rd, lineNumber, cc) }
 
 func ParseFileCallback variant stats2
   bind callback = stats.Stats$2
   calluse ParseStreamCallback#1 stats2
-  props C08 C09 C10
+  props C08 C09 C10 C07
   modifies captured(callback, countDb)
-  modifies ghost(cbLen, cbErr, cbNode, cbStop, cbRet, cbLineNo, cbLine, cbHeader, cbElems, cbNElems, scRd, scPos, privLo, evOf, lastOpen)
+  modifies ghost(cbLen, cbErr, cbNode, cbStop, cbRet, cbLineNo, cbLine, cbHeader, cbElems, cbNElems, scRd, scPos, privLo, evOf, lastOpen, evLine)
   let cc := c.CommentChar
   ensures @fails-on-unreadable [C10] result == nil ==> FileNameOf(lastOpen) == fileName && !RdFailed(lastOpen)
   ensures @fails-on-malformed [C09] result == nil ==> (forall i int :: {RdLine(lastOpen, i)} 0 <= i && i < RdN(lastOpen) ==> !Malformed(lastOpen, i, cc))
+  ensures @counts-headings [C07] result == nil ==> captured(callback, countDb) - old(captured(callback, countDb)) == HeadCount(lastOpen, RdN(lastOpen), cc)
   ensures @error-or-all [C10] result == nil ==> (forall j int :: {cbStop[j]} old(cbLen) <= j && j < cbLen ==> !cbStop[j] && cbErr[j] == nil)
 
 // ---------------------------------------------------------------------------------------------
